@@ -173,6 +173,27 @@ func (w *World) isQuorum(wt *big.Int, h uint64) bool {
 func (w *World) Do(m int, in In) []Act {
 	v := w.views[m]
 	disc := w.sc.Disciplined
+	if in.Kind == "restart" {
+		// crash + restart: a fresh state machine at the validator's current height (what node start-up
+		// does), value source continuing where the height began (replay-stable Application.Value, the
+		// hypothesis of C13); the caller then replays the WAL through ProcessWAL
+		spec := w.sc.Nodes[m]
+		spec.Height, spec.VBase = in.H, in.Value
+		w.sms[m] = newSM(&w.sc.Cfg, spec)
+		v.started = false
+		v.votes, v.props = map[voteKey]bool{}, map[propKey]bool{}
+		// the lock is rebuilt by the replay (the precommits are emitted again); what the validator
+		// broadcast before the crash (v.emitted) stays: a different vote after the restart is a conflict
+		v.lockSet = false
+		if in.H != v.height {
+			w.inadmissible("restart at a height that is not the validator's")
+		}
+		w.Lines = append(w.Lines, newLine(m, &w.sc.Cfg, spec))
+		w.Outs = append(w.Outs, "ok")
+		w.Acts = append(w.Acts, nil)
+		w.hit("restart")
+		return nil
+	}
 	// --- admissibility of the input under the driver's protocol ---
 	authProp := func(x In) {
 		if mi, ok := w.nodeOf[x.Sender]; ok {
@@ -210,9 +231,14 @@ func (w *World) Do(m int, in In) []Act {
 			authVote(x, true)
 		}
 	}
-	if in.Kind != "start" && !v.started {
-		// between construction/commit and ProcessStart the driver delivers nothing
+	if in.Kind != "start" && !v.started && !(in.Wal && (in.Kind == "prop" || in.Kind == "pv" || in.Kind == "pc")) {
+		// between construction/commit and ProcessStart the driver delivers nothing — except during
+		// replay: messages logged for a height before its Start entry (received while the validator
+		// was still at the previous height) come before it
 		w.inadmissible("input before ProcessStart")
+	}
+	if in.Wal && !v.started && in.Kind != "start" {
+		w.hit("replayed-message-before-Start-of-its-height")
 	}
 	// --- record what the validator has been given ---
 	recVote := func(x In, pc bool) {
